@@ -16,7 +16,24 @@
 //!   points inside tx_insert/tx_update/tx_delete/commit/rollback (hook sites
 //!   `rel.*`). Row-level effects are *observed* (every update writes a unique
 //!   tag into `c`; deletes are attributed through the lock table) and judged
-//!   at quiescence.
+//!   at quiescence. The acquisitions of the row-lock tables of
+//!   `relational_engine::transaction` (`RowLockManager::{locks, tx_locks}`)
+//!   and of the engine's per-key index locks, ordered-index map lock and DDL
+//!   lock (`relational_engine/src/lib.rs`) are schedule points as well
+//!   (`relational_engine::sync_compat`, sites `rel.lock` / `rel.lock.wait`),
+//!   so threads are switched between the critical sections of `try_lock`,
+//!   `release` and the lock queries, between `tx_insert`'s slab insert and its
+//!   lock acquisition, and between the index steps of a row change.
+//!
+//! Engine configuration is part of the case (`max_btree`, `max_cond_depth`):
+//! with a small `RelationalConfig::max_btree_entries` the ordered-index
+//! maintenance of tx_insert / tx_update fails half-way (ResultTooLarge), with
+//! `max_condition_depth = 0` nested conditions fail while scanning. A failed
+//! statement is not judged by itself (the text is about the ends of
+//! transactions); what it left in the table is observed and attributed to its
+//! transaction, and rollback exactness / commit permanence / the all-or-nothing
+//! outcome of a failed auto-commit statement are judged on every view
+//! (`StmtRun::absorb_failed`).
 //!
 //! Reference model (both layers): per row the ordered list of row-level
 //! effects `(tx, Insert(values) | Set(assignments) | Delete)`. The expected
@@ -196,6 +213,18 @@ pub struct Case {
     /// only the consequences (rollback/commit exactness) are judged
     #[serde(default)]
     pub lenient_insert: bool,
+    /// engine configuration (part of the case): `RelationalConfig::max_btree_entries`,
+    /// the total number of distinct keys the ordered indexes may hold. Small values
+    /// make the ordered-index maintenance of a statement FAIL half-way (after the
+    /// row locks were taken and the hash index / earlier rows were changed).
+    /// `None`: engine default (never reached)
+    #[serde(default)]
+    pub max_btree: Option<u64>,
+    /// engine configuration: `RelationalConfig::max_condition_depth`. `Some(0)`
+    /// makes every nested condition fail while the statement scans (before it
+    /// locks or changes anything). `None`: engine default
+    #[serde(default)]
+    pub max_cond_depth: Option<u64>,
 }
 
 pub struct C09;
@@ -240,6 +269,12 @@ struct MTx {
     /// wrote a row that another transaction, live at the same time, also wrote
     /// (possible only after a lock timed out and the row was taken over)
     shared: bool,
+    /// kinds of statements of this transaction that returned an error half-way
+    /// (engine limit reached), see `StmtRun::absorb_failed`
+    failed: BTreeSet<&'static str>,
+    /// a failed statement of this transaction left index entries that disagree
+    /// with the table; they are judged when the transaction ends
+    dirty: bool,
 }
 
 #[derive(Clone, Debug)]
@@ -259,12 +294,16 @@ struct Model {
     seq: u64,
     lock_to_ms: u64,
     tx_to_ms: u64,
+    /// a transaction with `dirty` index entries was removed by the expiry sweep
+    /// (its writes stay, engine semantics, not judged): index views are no longer
+    /// comparable in this run
+    index_unreliable: bool,
 }
 
 impl Model {
     fn begin(&mut self) -> usize {
         self.seq += 1;
-        self.txs.push(MTx { st: St::Live, started_ms: self.now_ms, ended_at: None, began_at: self.seq, wrote: BTreeSet::new(), shared: false });
+        self.txs.push(MTx { st: St::Live, started_ms: self.now_ms, ended_at: None, began_at: self.seq, wrote: BTreeSet::new(), shared: false, failed: BTreeSet::new(), dirty: false });
         self.txs.len() - 1
     }
     fn value(&self, id: u64) -> Option<Vals> {
@@ -328,7 +367,13 @@ impl Model {
 // --------------------------------------------------------------- engine ----
 
 fn mk_engine(case: &Case) -> Result<RelationalEngine, String> {
-    let cfg = RelationalConfig::default().with_lock_timeout_secs(case.lock_to_s).with_transaction_timeout_secs(case.tx_to_s);
+    let mut cfg = RelationalConfig::default().with_lock_timeout_secs(case.lock_to_s).with_transaction_timeout_secs(case.tx_to_s);
+    if let Some(n) = case.max_btree {
+        cfg = cfg.with_max_btree_entries(n as usize);
+    }
+    if let Some(d) = case.max_cond_depth {
+        cfg = cfg.with_max_condition_depth(d as usize);
+    }
     let e = RelationalEngine::with_config(cfg);
     let schema = Schema::new(vec![Column::new("a", ColumnType::Int), Column::new("b", ColumnType::Int), Column::new("c", ColumnType::Int)]);
     e.create_table(T, schema).map_err(|x| format!("create_table: {x}"))?;
@@ -370,13 +415,16 @@ fn fmt_rows(m: &BTreeMap<u64, Vals>) -> String {
 /// Compare the full observable state with `exp`: the table by scan, every
 /// equality query on the hash-indexed column, every range query on the
 /// ordered-indexed column. Returns (view name, detail) of the first difference.
-fn compare_views(e: &RelationalEngine, exp: &BTreeMap<u64, Vals>) -> Result<Option<(&'static str, String)>, String> {
+fn compare_views(e: &RelationalEngine, exp: &BTreeMap<u64, Vals>, scan_only: bool) -> Result<Option<(&'static str, String)>, String> {
     let (scan, dup) = sel(e, &Cond::True)?;
     if let Some(id) = dup {
         return Ok(Some(("scan:duplicate-row", format!("full select returns row #{id} more than once"))));
     }
     if &scan != exp {
         return Ok(Some(("scan", format!("full select returns {} expected {}", fmt_rows(&scan), fmt_rows(exp)))));
+    }
+    if scan_only {
+        return Ok(None);
     }
     let filt = |c: &Cond| -> BTreeMap<u64, Vals> { exp.iter().filter(|(id, v)| c.eval(**id, v)).map(|(i, v)| (*i, *v)).collect() };
     for x in 0..=A_DOM {
@@ -405,11 +453,22 @@ fn compare_views(e: &RelationalEngine, exp: &BTreeMap<u64, Vals>) -> Result<Opti
     Ok(None)
 }
 
+#[derive(Debug, Clone, Copy, PartialEq)]
+enum FailKind {
+    /// `ResultTooLarge`: an engine limit (max_btree_entries) was reached; inside
+    /// tx_insert/tx_update this happens after the row locks were taken
+    Limit,
+    /// `ConditionTooDeep`: raised while the statement scans, before any lock
+    Depth,
+}
+
 #[derive(Debug)]
 enum Out {
     Ok(usize),
     Conflict,
     NoTx,
+    /// the statement failed because a configured engine limit was reached
+    Fail(FailKind, String),
     Other(String),
 }
 
@@ -418,6 +477,8 @@ fn classify<Tv>(r: Result<Tv, RelationalError>, n: impl Fn(&Tv) -> usize) -> Out
         Ok(v) => Out::Ok(n(&v)),
         Err(RelationalError::LockConflict { .. }) => Out::Conflict,
         Err(RelationalError::TransactionNotFound(_)) | Err(RelationalError::TransactionInactive(_)) => Out::NoTx,
+        Err(e @ RelationalError::ResultTooLarge { .. }) => Out::Fail(FailKind::Limit, strip_ids(&e.to_string())),
+        Err(e @ RelationalError::ConditionTooDeep { .. }) => Out::Fail(FailKind::Depth, strip_ids(&e.to_string())),
         Err(e) => Out::Other(strip_ids(&e.to_string())),
     }
 }
@@ -487,7 +548,10 @@ impl<'a> StmtRun<'a> {
 
     fn check_state(&self, after: &str, suffix: &str) -> Result<Option<Violation>, String> {
         let exp = self.m.visible();
-        if let Some((view, d)) = compare_views(&self.e, &exp)? {
+        // index entries left behind by a statement that failed half-way are judged when
+        // its transaction ends (see absorb_failed); until then only the table is compared
+        let scan_only = self.m.index_unreliable || self.m.txs.iter().any(|t| t.st == St::Live && t.dirty);
+        if let Some((view, d)) = compare_views(&self.e, &exp, scan_only)? {
             // one class for every view when the transaction lost a row lock to another
             // transaction before it ended (lock timed out and was taken over)
             let class = if suffix.is_empty() { format!("state-mismatch:after-{after}:{view}") } else { format!("state-mismatch:after-{after}{suffix}") };
@@ -568,17 +632,125 @@ impl<'a> StmtRun<'a> {
                 None
             },
             (_, Out::NoTx) => Some(viol(format!("live-tx-rejected:{op}"), format!("{who} {op}: the engine does not know this live transaction"))),
+            (b, Out::Fail(kind, e)) => {
+                if !self.knob_set(*kind) {
+                    return Some(viol(format!("unexpected-error:{op}"), format!("{who} {op} {cond:?}: {e}")));
+                }
+                // "it receives a lock-conflict error instead": an index limit is reached only
+                // while rows are being changed, i.e. the statement went past the lock check
+                if let (Some((id, h)), FailKind::Limit) = (b, kind) {
+                    let eff = self.m.holder_effect(id, h);
+                    return Some(viol(
+                        format!("missing-lock-conflict:{op}-of-row-{eff}-by-live-tx"),
+                        format!("{who} {op} {cond:?} started changing rows (and failed with: {e}) although row #{id} was {eff} by another transaction that is still live and whose lock has not timed out"),
+                    ));
+                }
+                // what the failed statement left behind is absorbed by the caller (absorb_failed)
+                None
+            },
             (_, Out::Other(e)) => Some(viol(format!("unexpected-error:{op}"), format!("{who} {op} {cond:?}: {e}"))),
         }
     }
 
-    fn run(&mut self) -> Result<Option<Violation>, String> {
-        for v in &self.case.init {
-            let id = self.e.insert(T, vals_map(v)).map_err(|x| format!("init insert: {x}"))?;
-            let mt = self.m.begin();
-            self.m.push(id, mt, Eff::Ins(*v));
-            self.m.end(mt, St::Committed);
+    fn knob_set(&self, kind: FailKind) -> bool {
+        match kind {
+            FailKind::Limit => self.case.max_btree.is_some(),
+            FailKind::Depth => self.case.max_cond_depth.is_some(),
         }
+    }
+
+    /// A statement of the live transaction `mt` returned an error because a
+    /// configured engine limit was reached. The property text says nothing about
+    /// the state *between* a failed statement and the end of its transaction, so
+    /// nothing is judged here: whatever the statement changed in the table is
+    /// observed and recorded as effects of `mt` (so that "as if none of the
+    /// transaction's statements had run" / "makes all of them permanent" are
+    /// judged exactly when the transaction ends), the row locks it took are
+    /// observed through `row_lock_holder`, and index entries that now disagree
+    /// with the table mark the transaction `dirty` (index views are compared
+    /// again when it ends).
+    fn absorb_failed(&mut self, i: usize, who: &str, mt: usize, tx: u64, op: &'static str, kind: FailKind, cond: Option<&Cond>) -> Result<(), String> {
+        self.ctx.probe("stmt_failed");
+        let before = self.m.visible();
+        let (scan, _) = sel(&self.e, &Cond::True)?;
+        let mut touched: BTreeSet<u64> = match cond {
+            Some(c) => before.iter().filter(|(id, v)| c.eval(**id, v)).map(|(id, _)| *id).collect(),
+            None => BTreeSet::new(),
+        };
+        let ids: BTreeSet<u64> = before.keys().chain(scan.keys()).copied().collect();
+        let mut changed = 0;
+        for id in ids {
+            let eff = match (before.get(&id), scan.get(&id)) {
+                (a, b) if a == b => continue,
+                (None, Some(v)) => Eff::Ins(*v),
+                (_, None) => Eff::Del,
+                (Some(_), Some(v)) => Eff::Set(Assign { a: Some(v[0]), b: Some(v[1]), c: Some(v[2]) }),
+            };
+            changed += 1;
+            touched.insert(id);
+            self.m.mark_shared(id, mt);
+            self.m.push(id, mt, eff);
+        }
+        for id in &touched {
+            if self.e.tx_manager().row_lock_holder(T, *id) == Some(tx) && kind == FailKind::Limit {
+                self.m.locks.insert(*id, (mt, self.m.now_ms));
+                // the statement locked the row and may hold an undo image of it although the
+                // table row is unchanged: the row counts as written by `mt` (a later takeover
+                // of the timed-out lock is the known lock-takeover situation)
+                if !self.m.hist.get(id).is_some_and(|evs| evs.iter().any(|e| e.tx == mt)) {
+                    self.m.mark_shared(*id, mt);
+                    self.m.push(*id, mt, Eff::Set(Assign::default()));
+                }
+            }
+        }
+        let dirty = compare_views(&self.e, &self.m.visible(), false)?.is_some();
+        if dirty {
+            self.m.txs[mt].dirty = true;
+            self.ctx.probe("failed_stmt_left_index_inconsistent");
+        }
+        if changed > 0 {
+            self.ctx.probe("failed_stmt_changed_rows");
+        }
+        if !dirty && changed == 0 {
+            self.ctx.probe("failed_stmt_changed_nothing");
+        }
+        // a statement that failed while it scanned (Depth) and left no trace is not a
+        // half-applied statement
+        if kind == FailKind::Limit || changed > 0 {
+            self.m.txs[mt].failed.insert(op);
+        }
+        self.ctx.fp(&format!("failed:{op}:{}:{}", changed.min(2), dirty));
+        self.ctx.event(&format!("{i} {who} {op} failed ({kind:?}): {changed} table rows changed, index views {}", if dirty { "disagree with the table" } else { "agree with the table" }));
+        Ok(())
+    }
+
+    /// class suffix for the state check at the end of transaction `mt`
+    fn end_suffix(&self, mt: usize) -> String {
+        if self.m.overlapped(mt) && !self.m.txs[mt].failed.is_empty() {
+            // both known findings at once (lock takeover, half-applied failed statement)
+            "+after-lock-takeover+after-failed-stmt".into()
+        } else if self.m.overlapped(mt) {
+            "+after-lock-takeover".into()
+        } else if !self.m.txs[mt].failed.is_empty() {
+            // a failed tx_insert (known finding: its row is never undone) decides the class
+            let ops: Vec<&str> = if self.m.txs[mt].failed.contains("insert") { vec!["insert"] } else { self.m.txs[mt].failed.iter().copied().collect() };
+            format!("+after-failed-{}", ops.join("-"))
+        } else {
+            String::new()
+        }
+    }
+
+    fn run(&mut self) -> Result<Option<Violation>, String> {
+        // the initial rows are ordinary auto-commit inserts (they may hit the configured
+        // index limit like any other)
+        self.ctx.event("init");
+        let init = self.case.init.clone();
+        for (k, v) in init.iter().enumerate() {
+            if let Some(v) = self.step(k, &Step::Insert { v: *v })? {
+                return Ok(Some(v));
+            }
+        }
+        self.ctx.event("steps");
         if let Some(v) = self.check_state("setup", "")? {
             return Ok(Some(v));
         }
@@ -595,6 +767,9 @@ impl<'a> StmtRun<'a> {
         for t in 0..self.m.txs.len() {
             if self.m.txs[t].st == St::Live {
                 self.ctx.probe("abandoned_tx_expired_at_end");
+                if self.m.txs[t].dirty {
+                    self.m.index_unreliable = true;
+                }
                 self.m.end(t, St::Expired);
             }
         }
@@ -697,7 +872,15 @@ impl<'a> StmtRun<'a> {
                                         self.m.locks.insert(id, (mt, self.m.now_ms));
                                     }
                                 },
-                                Err(e) => return Ok(Some(viol("unexpected-error:insert", format!("step {i}: {who} tx_insert {v:?}: {}", strip_ids(&e.to_string()))))),
+                                Err(e) => match classify::<u64>(Err(e), |_| 1) {
+                                    Out::Fail(kind, msg) if self.knob_set(kind) => {
+                                        ctx.event(&format!("{i} {who} insert {v:?} -> Fail({kind:?})"));
+                                        let _ = msg;
+                                        self.absorb_failed(i, &who, mt, tx, "insert", kind, None)?;
+                                        after = "failed-stmt";
+                                    },
+                                    out => return Ok(Some(viol("unexpected-error:insert", format!("step {i}: {who} tx_insert {v:?}: {out:?}")))),
+                                },
                             }
                         },
                         Step::TxUpdate { cond, set, .. } => {
@@ -710,6 +893,10 @@ impl<'a> StmtRun<'a> {
                                 v.detail = format!("step {i}: {}", v.detail);
                                 return Ok(Some(v));
                             }
+                            if let Out::Fail(kind, _) = &out {
+                                self.absorb_failed(i, &who, mt, tx, "update", *kind, Some(cond))?;
+                                after = "failed-stmt";
+                            }
                         },
                         Step::TxDelete { cond, .. } => {
                             let out = classify(self.e.tx_delete(tx, T, cond.to_engine()), |n| *n);
@@ -721,11 +908,16 @@ impl<'a> StmtRun<'a> {
                                 v.detail = format!("step {i}: {}", v.detail);
                                 return Ok(Some(v));
                             }
+                            if let Out::Fail(kind, _) = &out {
+                                self.absorb_failed(i, &who, mt, tx, "delete", *kind, Some(cond))?;
+                                after = "failed-stmt";
+                            }
                         },
                         Step::TxSelect { cond, .. } => {
                             let out = classify(self.e.tx_select(tx, T, cond.to_engine()), Vec::len);
                             ctx.event(&format!("{i} {who} select {cond:?} -> {out:?}"));
-                            if !matches!(out, Out::Ok(_)) {
+                            let limited = matches!(&out, Out::Fail(kind, _) if self.knob_set(*kind));
+                            if !matches!(out, Out::Ok(_)) && !limited {
                                 return Ok(Some(viol("live-tx-rejected:select", format!("step {i}: {who} tx_select {cond:?} -> {out:?}"))));
                             }
                         },
@@ -738,8 +930,9 @@ impl<'a> StmtRun<'a> {
                             if !self.m.txs[mt].wrote.is_empty() {
                                 ctx.probe("commit_with_writes");
                             }
-                            if self.m.overlapped(mt) {
-                                suffix = "+after-lock-takeover".into();
+                            suffix = self.end_suffix(mt);
+                            if !self.m.txs[mt].failed.is_empty() {
+                                ctx.probe("commit_after_failed_stmt");
                             }
                             self.m.end(mt, St::Committed);
                             after = "commit";
@@ -760,14 +953,22 @@ impl<'a> StmtRun<'a> {
                                     ctx.probe("rollback_error_after_overlap");
                                     let _ = e;
                                 },
+                                // the undo could not put an ordered-index key back because the
+                                // configured limit is reached again (other statements used the room)
+                                Out::Other(e) if self.case.max_btree.is_some() && e.contains("btree") => {
+                                    return Ok(Some(viol("rollback-failed:ordered-index-full", format!("step {i}: rollback of live transaction {who} -> {out:?}"))));
+                                },
                                 _ => return Ok(Some(viol("rollback-failed", format!("step {i}: rollback of live transaction {who} -> {out:?}")))),
                             }
                             if touched_index {
                                 ctx.probe("rollback_touched_indexed_column");
                             }
+                            suffix = self.end_suffix(mt);
                             if overl {
-                                suffix = "+after-lock-takeover".into();
                                 ctx.probe("rollback_after_overlap");
+                            }
+                            if !self.m.txs[mt].failed.is_empty() {
+                                ctx.probe("rollback_after_failed_stmt");
                             }
                             self.m.end(mt, St::RolledBack);
                             after = "rollback";
@@ -788,7 +989,16 @@ impl<'a> StmtRun<'a> {
                         self.m.push(id, mt, Eff::Ins(*v));
                         self.m.end(mt, St::Committed);
                     },
-                    Err(e) => return Ok(Some(viol("unexpected-error:insert", format!("step {i}: insert {v:?}: {}", strip_ids(&e.to_string()))))),
+                    // "all-or-nothing": the engine runs the statement as a one-statement
+                    // transaction and rolls it back on error, so nothing of it may remain
+                    Err(e) => match classify::<u64>(Err(e), |_| 1) {
+                        Out::Fail(kind, _) if self.knob_set(kind) => {
+                            ctx.event(&format!("{i} auto insert {v:?} -> Fail({kind:?})"));
+                            ctx.probe("failed_auto_stmt");
+                            suffix = "+after-failed-insert".into();
+                        },
+                        out => return Ok(Some(viol("unexpected-error:insert", format!("step {i}: insert {v:?}: {out:?}")))),
+                    },
                 }
                 after = "auto-stmt";
             },
@@ -799,6 +1009,10 @@ impl<'a> StmtRun<'a> {
                 let mt = self.m.begin();
                 let r = self.judge_write("auto-commit", mt, cond, &Kind::Update(set.clone()), &out);
                 self.m.end(mt, if matches!(out, Out::Ok(_)) { St::Committed } else { St::RolledBack });
+                if matches!(out, Out::Fail(..)) {
+                    ctx.probe("failed_auto_stmt");
+                    suffix = "+after-failed-update".into();
+                }
                 if let Some(mut v) = r {
                     v.detail = format!("step {i}: {}", v.detail);
                     return Ok(Some(v));
@@ -811,6 +1025,10 @@ impl<'a> StmtRun<'a> {
                 let mt = self.m.begin();
                 let r = self.judge_write("auto-commit", mt, cond, &Kind::Delete, &out);
                 self.m.end(mt, if matches!(out, Out::Ok(_)) { St::Committed } else { St::RolledBack });
+                if matches!(out, Out::Fail(..)) {
+                    ctx.probe("failed_auto_stmt");
+                    suffix = "+after-failed-delete".into();
+                }
                 if let Some(mut v) = r {
                     v.detail = format!("step {i}: {}", v.detail);
                     return Ok(Some(v));
@@ -834,6 +1052,9 @@ impl<'a> StmtRun<'a> {
                 let n = self.e.tx_manager().cleanup_expired();
                 for t in 0..self.m.txs.len() {
                     if self.m.txs[t].st == St::Live && self.m.now_ms - self.m.txs[t].started_ms > self.m.tx_to_ms {
+                        if self.m.txs[t].dirty {
+                            self.m.index_unreliable = true;
+                        }
                         self.m.end(t, St::Expired);
                         ctx.probe("tx_expired_by_clock");
                         ctx.fp("tx-expired");
@@ -857,6 +1078,9 @@ enum Obs {
 
 struct Shared {
     obs: Vec<Obs>,
+    /// an observation window of a thread body that must contain no schedule point did
+    /// contain one (harness error: the attribution of row changes would be unsound)
+    broken: Option<String>,
 }
 
 fn tag_of(th: usize, si: usize) -> i64 {
@@ -870,13 +1094,28 @@ fn run_threads_case(case: &Case, ctx: &Arc<RunCtx>) -> Result<(Option<Violation>
         let id = e.insert(T, vals_map(v)).map_err(|x| format!("init insert: {x}"))?;
         init.insert(id, *v);
     }
-    let shared = Arc::new(Mutex::new(Shared { obs: Vec::new() }));
+    let shared = Arc::new(Mutex::new(Shared { obs: Vec::new(), broken: None }));
     let mut bodies: Vec<Body> = Vec::new();
     for (th, prog) in case.progs.iter().enumerate() {
         let e = e.clone();
         let prog = prog.clone();
         let shared = shared.clone();
         bodies.push(Box::new(move || {
+            // every schedule point this thread reaches, in order: the observation windows
+            // below rely on "no schedule point in between" and check it
+            let sites: std::rc::Rc<std::cell::RefCell<Vec<&'static str>>> = Default::default();
+            {
+                let sites = sites.clone();
+                sched::set_site_observer(Some(Box::new(move |site| sites.borrow_mut().push(site))));
+            }
+            let mark = || sites.borrow().len();
+            let broken = |what: &str, from: usize| {
+                let seen: Vec<&'static str> = sites.borrow()[from..].to_vec();
+                let mut g = shared.lock().unwrap();
+                if g.broken.is_none() {
+                    g.broken = Some(format!("thread t{th}: {what}: schedule points {seen:?} inside an observation window"));
+                }
+            };
             sched::yield_point("c09.start");
             let auto = prog.kind == 2;
             let tx = if auto { 0 } else { e.begin_transaction() };
@@ -907,10 +1146,14 @@ fn run_threads_case(case: &Case, ctx: &Arc<RunCtx>) -> Result<(Option<Violation>
                         out = format!("{:?}", classify(r, |n| *n));
                         // the rows carrying this statement's tag are the rows it changed
                         // (no schedule point between the last change and this read)
+                        let m0 = mark();
                         if let Ok(rows) = e.select(T, Condition::Eq("c".into(), Value::Int(tag))) {
                             for r in rows {
                                 effs.push((r.id, Eff::Set(set.clone())));
                             }
+                        }
+                        if mark() != m0 {
+                            broken("tag read after update", m0);
                         }
                     },
                     TStmt::Delete { cond } => {
@@ -919,15 +1162,27 @@ fn run_threads_case(case: &Case, ctx: &Arc<RunCtx>) -> Result<(Option<Violation>
                         } else {
                             // what the statement's scan sees (no schedule point between this
                             // read and the scan inside tx_delete)
+                            let m0 = mark();
                             let before: Vec<u64> = e
                                 .select(T, Condition::True)
                                 .map(|v| v.iter().filter(|r| row_vals(r).map(|x| cond.eval(r.id, &x)).unwrap_or(false)).map(|r| r.id).collect())
                                 .unwrap_or_default();
+                            if mark() != m0 {
+                                broken("table read before delete", m0);
+                            }
                             let r = e.tx_delete(tx, T, cond.to_engine());
+                            // the first schedule point inside tx_delete comes after its scan
+                            if sites.borrow().get(m0).is_some_and(|s| *s != "rel.tx_delete.after_scan") {
+                                broken("delete scan", m0);
+                            }
                             out = format!("{:?}", classify(r, |n| *n));
+                            let m1 = mark();
                             // rows the scan matched, that are gone now and whose lock this
                             // transaction holds are the rows it deleted
                             let alive: BTreeSet<u64> = e.select(T, Condition::True).map(|v| v.iter().map(|r| r.id).collect()).unwrap_or_default();
+                            if mark() != m1 {
+                                broken("table read after delete", m1);
+                            }
                             for id in before {
                                 if e.tx_manager().row_lock_holder(T, id) == Some(tx) && !alive.contains(&id) && !deleted.contains(&id) {
                                     deleted.insert(id);
@@ -950,14 +1205,19 @@ fn run_threads_case(case: &Case, ctx: &Arc<RunCtx>) -> Result<(Option<Violation>
                 // values of the rows this transaction wrote, read with no schedule
                 // point after the locks were released
                 let mut wrote_now = BTreeMap::new();
+                let m0 = mark();
                 if let Ok(rows) = e.select(T, Condition::True) {
                     let m: BTreeMap<u64, Vals> = rows.iter().filter_map(|r| row_vals(r).ok().map(|v| (r.id, v))).collect();
                     for id in &wrote {
                         wrote_now.insert(*id, m.get(id).copied());
                     }
                 }
+                if mark() != m0 {
+                    broken("table read after the transaction ended", m0);
+                }
                 shared.lock().unwrap().obs.push(Obs::End { th, committed, out, wrote_now });
             }
+            sched::set_site_observer(None);
         }));
     }
     let res = sched::run_threads(ctx, &case.schedule, 20_000, bodies);
@@ -975,8 +1235,16 @@ fn run_threads_case(case: &Case, ctx: &Arc<RunCtx>) -> Result<(Option<Violation>
             "rel.tx_update.row" | "rel.tx_delete.row" => ctx.probe("preempted_between_rows"),
             "rel.rollback.entry" | "rel.rollback.before_release" => ctx.probe("preempted_inside_rollback"),
             "rel.tx_insert.after_slab_insert" | "rel.tx_insert.after_index" => ctx.probe("preempted_inside_insert"),
+            // parked in front of an acquisition of the row-lock tables or of an index lock
+            // (between the critical sections of try_lock / release / the lock queries /
+            // the index steps of a row change)
+            "rel.lock" => ctx.probe("preempted_at_lock_table"),
+            "rel.lock.wait" => ctx.probe("waited_for_lock_table"),
             _ => {},
         }
+    }
+    if let Some(b) = shared.lock().unwrap().broken.clone() {
+        return Err(b);
     }
     let obs = std::mem::take(&mut shared.lock().unwrap().obs);
 
@@ -993,6 +1261,26 @@ fn run_threads_case(case: &Case, ctx: &Arc<RunCtx>) -> Result<(Option<Violation>
     for (th, p) in case.progs.iter().enumerate() {
         if p.kind != 2 {
             th_tx[th] = Some(m.begin());
+        }
+    }
+    // a tx_insert can meet a lock on its own brand-new row only when another
+    // transaction locked the row between the moment tx_insert made it visible and
+    // the moment it locks it: that transaction is modifying a row this live
+    // transaction has inserted, and the insert then removes the row under it.
+    // Looked for first: the other thread's statements may be reported before or
+    // after the insert returns, and everything that follows is a consequence.
+    for o in &obs {
+        if let Obs::Stmt { th, si, out, .. } = o {
+            if matches!(case.progs[*th].stmts[*si], TStmt::Insert { .. }) && out.starts_with("Err(Lock conflict") {
+                ctx.event(&format!("t{th} stmt{si} {:?} -> {out}", case.progs[*th].stmts[*si]));
+                return Ok((
+                    Some(viol(
+                        "unfinished-insert-row-locked",
+                        format!("thread t{th} statement {si}: tx_insert returned {out}: another transaction locked the new row after tx_insert had put it into the table and before it took the row lock; tx_insert removed the row again"),
+                    )),
+                    true,
+                ));
+            }
         }
     }
     let mut conflict_seen = false;
@@ -1012,6 +1300,19 @@ fn run_threads_case(case: &Case, ctx: &Arc<RunCtx>) -> Result<(Option<Violation>
                     // were both live at the time
                     if m.hist.get(id).is_some_and(|evs| evs.iter().any(|e| e.tx != mt && e.tx != boot)) {
                         ctx.probe("two_threads_same_row");
+                    }
+                    // a row no finished statement has inserted: it is the row of a tx_insert of
+                    // another thread that is still inside the call (row visible, parked in front
+                    // of the lock table). "While a transaction has modified a row, no other
+                    // transaction can modify or delete that row"
+                    if !matches!(eff, Eff::Ins(_)) && !m.hist.contains_key(id) {
+                        return Ok((
+                            Some(viol(
+                                format!("unfinished-insert-row-{}", eff.name()),
+                                format!("thread t{th} statement {si} {} row #{id}, which a tx_insert of another live transaction has put into the table but not locked yet (if that tx_insert then meets the lock, it fails with a lock conflict and removes the row)", eff.name()),
+                            )),
+                            true,
+                        ));
                     }
                     if let Some(prev) = m.hist.get(id).and_then(|evs| evs.iter().rev().find(|e| e.tx != mt)) {
                         if m.txs[prev.tx].st == St::Live {
@@ -1081,7 +1382,7 @@ fn run_threads_case(case: &Case, ctx: &Arc<RunCtx>) -> Result<(Option<Violation>
     let _ = conflict_seen;
     ctx.event("quiescence");
     let exp = m.visible();
-    if let Some((view, d)) = compare_views(&e, &exp)? {
+    if let Some((view, d)) = compare_views(&e, &exp, false)? {
         return Ok((Some(viol(format!("state-mismatch:at-quiescence:{view}"), d)), true));
     }
     // "the locks disappear when the first one ends"
@@ -1217,7 +1518,13 @@ impl C09 {
                 _ => {},
             }
         }
-        Case { mode: Mode::Stmt, lock_to_s, tx_to_s, init, steps, progs: Vec::new(), schedule: Vec::new(), lenient_insert: false }
+        // engine configuration knobs (drawn last: the statement lists of older seeds stay the
+        // same). Ordered-index limit: exactly as many keys as the initial rows need, or one or
+        // two more, so that later statements that bring a new key fail half-way.
+        let distinct_b = init.iter().map(|v| v[1]).collect::<BTreeSet<_>>().len() as u64;
+        let max_btree = if rng.chance(2, 5) { Some(distinct_b + rng.below(3)) } else { None };
+        let max_cond_depth = if rng.chance(1, 8) { Some(0) } else { None };
+        Case { mode: Mode::Stmt, lock_to_s, tx_to_s, init, steps, progs: Vec::new(), schedule: Vec::new(), lenient_insert: false, max_btree, max_cond_depth }
     }
 
     fn gen_thread_case(&self, rng: &mut Rng) -> Case {
@@ -1245,9 +1552,10 @@ impl C09 {
             progs.push(Prog { kind, stmts });
         }
         let stick = *rng.pick(&[40u64, 60, 75, 85, 92]);
-        let slen = rng.range(24, 96) as usize;
+        // the lock-table acquisitions (rel.lock) are schedule points too: longer schedules
+        let slen = rng.range(32, 192) as usize;
         let schedule = sched::gen_schedule(rng, slen, stick);
-        Case { mode: Mode::Threads, lock_to_s: 30, tx_to_s: 60, init, steps: Vec::new(), progs, schedule, lenient_insert: false }
+        Case { mode: Mode::Threads, lock_to_s: 30, tx_to_s: 60, init, steps: Vec::new(), progs, schedule, lenient_insert: false, max_btree: None, max_cond_depth: None }
     }
 }
 
@@ -1315,6 +1623,16 @@ impl Scenario for C09 {
         let mut v = Vec::new();
         match case.mode {
             Mode::Stmt => {
+                if case.max_cond_depth.is_some() {
+                    let mut c = case.clone();
+                    c.max_cond_depth = None;
+                    v.push(c);
+                }
+                if case.max_btree.is_some() {
+                    let mut c = case.clone();
+                    c.max_btree = None;
+                    v.push(c);
+                }
                 for steps in drop_chunks(&case.steps) {
                     let mut c = case.clone();
                     c.steps = steps;
@@ -1420,15 +1738,21 @@ impl Scenario for C09 {
             "preempted_between_lock_and_change",
             "two_threads_same_row",
             "rollback_with_writes",
+            "preempted_at_lock_table",
+            "failed_stmt_left_index_inconsistent",
+            "failed_stmt_changed_rows",
+            "rollback_after_failed_stmt",
+            "commit_after_failed_stmt",
+            "failed_auto_stmt",
         ]
     }
     fn rule(&self) -> String {
-        "A case is either (Stmt, 3 of 5) an explicit list of <=~45 steps over a 2-5 row table with a hash index on a and an ordered index on b: begin/tx_insert/tx_update/tx_delete/tx_select/commit/rollback of 2-4 transactions (<=5 statements each, some abandoned, some used after they finished), auto-commit insert/update/delete, clock advances (sub-second, past the row-lock timeout, past the transaction timeout) and the public clean-up calls, judged after every step; or (Threads, 2 of 5) 2-4 threads running one transaction or auto-commit stream of 1-3 statements each under an explicit schedule with switch points between statements and at the rel.* hook sites inside tx_insert/tx_update/tx_delete/commit/rollback, judged when each transaction ends and at quiescence. Non-trivial: Stmt — at least two transactions begun and three transactional calls executed; Threads — at least one thread switch and two statements. Distinct: hash of (layer, sequence of commit/rollback/conflict/lock-takeover/tx-expiry events, per-site preemption counts).".into()
+        "A case is either (Stmt, 3 of 5) an explicit list of <=~45 steps over a 2-5 row table with a hash index on a and an ordered index on b: begin/tx_insert/tx_update/tx_delete/tx_select/commit/rollback of 2-4 transactions (<=5 statements each, some abandoned, some used after they finished), auto-commit insert/update/delete, clock advances (sub-second, past the row-lock timeout, past the transaction timeout) and the public clean-up calls, on an engine whose configuration is part of the case (2 of 5: max_btree_entries = number of distinct ordered keys of the initial rows + 0..2, so statements fail half-way; 1 of 8: max_condition_depth = 0, so nested conditions fail while scanning), judged after every step (after a half-way failed statement: table only until its transaction ends, then every view); or (Threads, 2 of 5) 2-4 threads running one transaction or auto-commit stream of 1-3 statements each under an explicit schedule with switch points between statements, at the rel.* hook sites inside tx_insert/tx_update/tx_delete/commit/rollback and in front of every acquisition of the row-lock tables and of the engine's index locks (rel.lock), judged when each transaction ends and at quiescence. Non-trivial: Stmt — at least two transactions begun and three transactional calls executed; Threads — at least one thread switch and two statements. Distinct: hash of (layer, sequence of commit/rollback/conflict/lock-takeover/tx-expiry/failed-statement events, per-site preemption counts).".into()
     }
     fn components(&self) -> Json {
         json!({
             "real": ["relational_engine::RelationalEngine (create_table, create_index, create_btree_index, insert/update/delete_rows/select, begin_transaction, tx_insert/tx_update/tx_delete/tx_select, commit, rollback)", "relational_engine::transaction::{TransactionManager, RowLockManager} incl. cleanup_expired / cleanup_expired_locks", "tensor_store::RelationalSlab and TensorStore (index entries)"],
-            "simulated": ["wall clock and monotonic clock (lock and transaction expiry read SystemTime::now)", "thread interleaving: baton scheduler over real OS threads, switches only at harness yield points and rel.* hook sites"],
+            "simulated": ["wall clock and monotonic clock (lock and transaction expiry read SystemTime::now)", "thread interleaving: baton scheduler over real OS threads, switches only at harness yield points, rel.* hook sites and the rel.lock acquisitions of RowLockManager's tables and of the engine's index / ordered-index / DDL locks (relational_engine::sync_compat)"],
             "stub": []
         })
     }
@@ -1440,6 +1764,9 @@ impl Scenario for C09 {
             "clock differences never land exactly on a timeout boundary (advances carry a 1-30 ms residue)".into(),
             "Threads layer: switches happen only at the listed hook sites; code between two sites is atomic".into(),
             "a row inserted by a live transaction counts as a row that transaction has modified".into(),
+            "a statement that returns ResultTooLarge / ConditionTooDeep because of the configured limits is a failed statement: its immediate effects are observed, not judged; the end of its transaction (rollback: exactly the state without the transaction; commit: every index view agrees with the table) and a failed auto-commit statement (nothing may remain) are judged".into(),
+            "engine limits are configured only in the Stmt layer; the Threads layer runs with the default configuration".into(),
+            "Threads layer: the rel.lock sites cover RowLockManager's tables and the engine's index / ordered-index / DDL locks (relational_engine::sync_compat); DashMap shards and the store's own locks are not schedule points. Each thread body checks that its observation reads contain no schedule point (harness error otherwise)".into(),
         ]
     }
 }
